@@ -60,7 +60,8 @@ TECHNIQUE = ('symbolic execution of the real configuration/API route parsers (Pa
              'UpdateCollection.messages on numeral tokens: every numeral of the text is an unbounded z3 integer, every comparison a '
              'solver branch; accepted routes are emitted on sessions from the real OPEN exchange and read back by RFC reference decoders, '
              'z3 proving wire integer == written integer per path; every path and counterexample replayed as real text through '
-             'Configuration.partial, the API handlers and a configuration file')
+             'Configuration.partial, the API handlers and a configuration file; the same keywords also through the `announce ipv4 <safi>` entry '
+             '(Configuration.partial("ipv4", ...): RouteBuilderValidator and the schema validators)')
 ASSUMPTIONS = [
     'numerals are canonical decimal renderings (what str(int) prints: optional "-", no leading zeros, no "+", "_" or blanks); the rest of '
     'the text (keywords, brackets, separators, names, IP literals, the structure of composite words) is concrete',
@@ -74,6 +75,11 @@ ASSUMPTIONS = [
     'kits.session (real OPEN exchange), nothing overridden',
     'RFC 4271 5.1.5: LOCAL_PREF given for an eBGP session is expected to be absent on the wire; ExaBGP sends a written as-path verbatim',
     'logging (log.*, lazymsg) has an empty body',
+    'watchdog (both runs): Tokeniser._get is wrapped; more than 5000 consecutive reads of a used-up tokeniser (it answers "" for ever) are reported as '
+    'C18:<kw>:does-not-return instead of hanging the check; a SIGALRM backstop (150 s symbolic, 60 s concrete, also around the API and file witnesses) covers any other loop',
+    'a concrete sample (units lexical/*) counts as "a definition the RFCs allow" only when it is marked accept in SAMPLES; samples marked refuse / unmarked are '
+    'only required to be answered (accept or refuse, no exception, no hang) and, if accepted, to encode and read back',
+    'RFC range table: AS numbers 1..2^32-1 for as-path / aggregator (RFC 7607: AS 0 is not allowed there), VPLS label block base + size <= 2^20 - 1',
     'witness obligations (API reply, configuration file) are evaluated on one model per path, not for all values',
 ]
 BOUNDS = {
@@ -82,8 +88,9 @@ BOUNDS = {
                           'flow operators =, >&<, [ = = ]',
               'sessions': '4 of {iBGP,eBGP} x peer ASN4 x ADD-PATH per keyword, all 8 for as-path / aggregator / path-information / local-preference; '
                           'flow and vpls: {iBGP,eBGP} x ASN4'},
-    'thorough': {'numerals': 'same', 'keywords': 'same + two-element community / large-community / extended-community lists, pairs of keywords, IPv6 mask, '
-                                                 'the attributes and announce <family> entry points',
+    'thorough': {'numerals': 'same', 'keywords': 'same + as-path of 3, two-element community list, origin / l2info extended communities, dotted path-information, '
+                                                 'icmp-code, port list, destination mask, two pairs of keywords (med + local-preference, label + community), and 13 '
+                                                 'keywords through the `announce ipv4 <safi>` entry point (4 of them already in quick)',
                  'sessions': 'all 8 for every unicast/labelled/vpn keyword'},
 }
 OUTSIDE = [
@@ -641,7 +648,7 @@ def vpls_block(v):
 
 class Case:
     def __init__(self, kw, words, nums, wire, section='static', fam=U4, famcode=(1, 1), shapes=None, rfc=None, quick=True, api='route',
-                 cover=None, in_file=True):
+                 cover=None, in_file=True, forks=()):
         self.kw = kw            # keyword in the signatures
         self.words = words      # fn(list of numerals) -> words
         self.nums = nums        # [(name, (rfc lo, rfc hi))]
@@ -655,6 +662,7 @@ class Case:
         self.api = api          # which API handler the witness uses (None: no API witness)
         self.in_file = in_file  # configuration-file witness
         self.cover = cover
+        self.forks = forks      # further values at which an accepted path is split (its replay and witnesses then run AT that value)
         self.routes = 1         # routes one accepted text defines
 
     def allowed(self, v):
@@ -673,6 +681,7 @@ VPN = dict(fam=('ipv4 mpls-vpn',), famcode=(1, 128))
 EQ, GT, LT = 1, 2, 4  # RFC 8955 4.2.1.1: lt gt eq bits -> low nibble 0 lt gt eq
 
 CASES = {}
+COVER = ('accepted', 'refused', 'max-accepted', 'above-max-refused', 'max+1-refused')
 
 
 def case(name, *a, **k):
@@ -712,11 +721,33 @@ case('static/path-information-dotted', 'path-information', lambda v: R4 + ['path
 case('static/mask', 'mask', lambda v: ['route', ('0.0.0.0/', v[0]), 'next-hop', '1.2.3.4'], [('mask', rng(0, 32))], w_mask4,
      shapes=[(True, True, False), (False, False, True)])
 case('static/mask-ipv6', 'mask', lambda v: ['route', ('::/', v[0]), 'next-hop', '2001:db8::1'], [('mask', rng(0, 128))], w_mask6,
-     fam=('ipv6 unicast',), famcode=(2, 1), shapes=[(True, True, False)], quick=False)
+     fam=('ipv6 unicast',), famcode=(2, 1), shapes=[(True, True, False)], forks=(32,), cover=COVER + ('accepted-at-32',))  # 32: the IPv4 host length
 case('static/aigp', 'aigp', lambda v: R4 + ['aigp', (v[0],)], [('metric', rng(0, M64))], w_aigp)
 case('static/bgp-prefix-sid', 'bgp-prefix-sid', lambda v: R4 + ['bgp-prefix-sid', '[', (v[0],), ']'], [('label-index', rng(0, M32))], w_sid_index)
 case('static/bgp-prefix-sid-srgb', 'bgp-prefix-sid', lambda v: R4 + ['bgp-prefix-sid', '[', (v[0],), ',', '[', '(', (v[1],), ',', (v[2],), ')', ']', ']'],
      [('label-index', rng(0, M32)), ('srgb-base', rng(0, M24)), ('srgb-range', rng(0, M24))], w_sid_srgb)
+
+case('static/med-and-local-preference', 'med+local-preference', lambda v: R4 + ['med', (v[0],), 'local-preference', (v[1],)],
+     [('med', rng(0, M32)), ('local-preference', rng(0, M32))], lambda w, v: w_med(w, v[:1]) + w_localpref(w, v[1:]), quick=False)
+case('static/label-and-community', 'label+community', lambda v: R4 + ['label', (v[0],), 'community', (v[1], ':', v[2])],
+     [('label0', rng(0, M20)), ('high', rng(0, M16)), ('low', rng(0, M16))], lambda w, v: w_label(w, v[:1]) + w_community_pair(w, v[1:]), quick=False, **MPLS)
+
+
+def announce(name, safi='unicast', quick=False, **over):
+    """the same definition through `announce ipv4 <safi> <prefix> ...` (API.api_announce_v4 -> Configuration.partial('ipv4', line)):
+    RouteBuilderValidator and the schema validators of configuration/validator.py instead of static.route()"""
+    base = CASES['static/' + name]
+    k = dict(section='ipv4', fam=base.fam, famcode=base.famcode, shapes=base.shapes, rfc=base.rfc, quick=quick, api=None, in_file=False, forks=base.forks)
+    k.update(over)
+    CASES['announce/' + name] = Case(base.kw, lambda v, b=base: [safi] + b.words(v)[1:], base.nums, base.wire, **k)
+
+
+for _n in ('med', 'community', 'aigp', 'path-information'):
+    announce(_n, quick=True)
+for _n in ('local-preference', 'as-path-1', 'aggregator', 'community-32bit', 'large-community', 'extended-community-target', 'mask'):
+    announce(_n)
+announce('label', 'nlri-mpls')
+announce('rd', 'mpls-vpn')
 
 case('vpls/endpoint-base-offset-size', 'vpls',
      lambda v: ['vpls', 'rd', '192.0.2.7:5', 'endpoint', (v[0],), 'base', (v[1],), 'offset', (v[2],), 'size', (v[3],), 'next-hop', '1.2.3.4'],
@@ -849,6 +880,9 @@ def boundary_covers(ctx, case_, v, accepted):
     """forks on the RFC boundaries: the replays of these paths are concrete runs AT max, max+1, min, min-1"""
     for x, (name, (lo, hi)) in zip(v, case_.nums):
         if accepted:
+            for at in case_.forks:
+                if x == at:
+                    ctx.cover('accepted-at-%d' % at)
             if x == hi:
                 ctx.cover('max-accepted')
             elif x == lo:
@@ -1144,6 +1178,24 @@ SAMPLES = {
 }
 
 
+def AN(kw, tail, *a, **k):
+    """`announce ipv4 unicast <prefix> ...`: Configuration.partial('ipv4', ...)"""
+    return Sample(kw, 'unicast 10.0.0.0/24 next-hop 1.2.3.4 ' + tail, *a, **dict(dict(section='ipv4', api=None, in_file=False), **k))
+
+
+SAMPLES['lexical/announce-family'] = [
+    AN('origin', 'origin egp', 'accept', w_origin, [1]), AN('origin', 'origin foo', 'refuse'), AN('originator-id', 'originator-id 1.2.3.4', 'accept', w_origid, [1, 2, 3, 4]),
+    AN('originator-id', 'originator-id 256.1.1.1', 'refuse'), AN('cluster-list', 'cluster-list 1.2.3.4', 'accept'), AN('cluster-list', 'cluster-list [ 1.2.3.4 1.2.3.5 ]', 'accept'),
+    AN('atomic-aggregate', 'atomic-aggregate', 'accept'), AN('aigp', 'aigp 0x64', 'accept', w_aigp, [100]), AN('attribute', 'attribute [ 0x99 0xc0 0x0102 ]', 'accept'),
+    AN('name', 'name x', 'accept'), AN('watchdog', 'watchdog w', 'accept'), AN('watchdog', 'watchdog announce', 'refuse'), AN('next-hop', 'next-hop'), AN('community', 'community [ 1:2'),
+    AN('path-information', 'path-information 1.2.3.4', 'accept', w_pid_bytes, [1, 2, 3, 4], shapes=[(True, True, True), (False, False, False)]),
+    AN('as-path', 'as-path [ 1.1 ]', 'accept', w_aspath_flat, [65537]), AN('bogus', 'bogus 5', 'refuse'), AN('med', 'med', 'refuse'), AN('med', 'med 007', 'accept', w_med, [7]),
+    Sample('prefix', 'unicast 10.0.0.1/24 next-hop 1.2.3.4', 'refuse', section='ipv4', api=None, in_file=False),
+    Sample('prefix', 'unicast 256.0.0.0/8 next-hop 1.2.3.4', 'refuse', section='ipv4', api=None, in_file=False),
+    Sample('prefix', 'unicast 10.0.0.0/24 next-hop 256.1.1.1', 'refuse', section='ipv4', api=None, in_file=False),
+]
+
+
 def h_samples(ctx, group):
     samples = SAMPLES[group]
     i = ctx.choice('sample', len(samples))
@@ -1159,9 +1211,6 @@ def h_samples(ctx, group):
 
 
 # ----------------------------------------------------------------------------- units
-
-COVER = ('accepted', 'refused', 'max-accepted', 'above-max-refused', 'max+1-refused')
-
 
 def units(tier):
     th = tier == 'thorough'
